@@ -78,7 +78,17 @@ fn remove_unused_compumethods(module: &mut Module) {
         used_compumethods.insert(typedef_axis.conversion.clone());
     }
     for typedef_characteristic in &mut module.typedef_characteristic {
+        for axis_descr in &typedef_characteristic.axis_descr {
+            used_compumethods.insert(axis_descr.conversion.clone());
+        }
         used_compumethods.insert(typedef_characteristic.conversion.clone());
+    }
+    for instance in &module.instance {
+        for overwrite in &instance.overwrite {
+            if let Some(conversion) = &overwrite.conversion {
+                used_compumethods.insert(conversion.name.clone());
+            }
+        }
     }
     for typedef_measurement in &mut module.typedef_measurement {
         used_compumethods.insert(typedef_measurement.conversion.clone());
